@@ -197,6 +197,7 @@ class World:
         self.records = {}       # id -> list of digests (one per own op)
         self.scen_cache = {}    # spec key -> (scenario, cfg)
         self.last_constructed = None
+        self.generator = None   # one ScenarioGenerator instance, if reused
         self.seam = seams.scripted_network()
         self.rnd = self.seam.__enter__()
         self.counters = core.Counters()
@@ -254,6 +255,26 @@ class World:
         scenario = cfg = None
         if key is not None and key in self.scen_cache:
             scenario, cfg = self.scen_cache[key]
+        if scenario is None and op.get("shared_generator") and \
+                spec["kind"] == "generated":
+            # every generated scenario of this world comes from ONE reused
+            # ScenarioGenerator instance
+            from nasim.scenarios import ScenarioGenerator
+            if self.generator is None:
+                self.generator = ScenarioGenerator()
+            params = dict(spec["params"])
+            if params.get("address_space_bounds") is not None:
+                params["address_space_bounds"] = tuple(
+                    params["address_space_bounds"])
+            st = np.random.get_state()
+            try:
+                scenario = configs.guarded_generate(self.generator.generate,
+                                                    **params)
+            except Exception as e:
+                raise SutError("build", e)
+            finally:
+                np.random.set_state(st)
+            cfg = reader.from_generated(scenario)
         sim = EnvSim.__new__(EnvSim)
         # EnvSim installs its own seam; in a world the seam is shared
         sim_init(sim, spec, op["modes"], self, scenario, cfg)
@@ -299,6 +320,17 @@ class World:
             if not sim.table.flat:
                 return ("mask", None)
             return ("mask", env.get_action_mask().tobytes())
+        if kind == "gen_initial":
+            st = env.generate_initial_state()
+            return ("gen_initial", st.tensor.tobytes())
+        if kind == "gen_random_initial":
+            keep = np.random.get_state()
+            np.random.seed(op.get("np_seed", 0))
+            try:
+                st = env.generate_random_initial_state()
+            finally:
+                np.random.set_state(keep)
+            return ("gen_random_initial", st.tensor.tobytes())
         if kind == "advert":
             return ("advert", int(env.get_minimum_hops()),
                     float(env.get_score_upper_bound()),
@@ -453,6 +485,9 @@ def c19_generate(seed, tier):
             share.append(None)
     ops = []
     constructed = []
+    shared_gen = family == "same_params" and cfgr.random() < 0.5
+    same_layout = family in ("same_object", "same_spec", "same_params",
+                             "bench_seeded_unseeded", "same_layout_rewired")
     n_ops = rng.choice([10, 20, 30, 40]) * (2 if tier == "thorough" else 1)
     # scratch worlds to generate model-guided ops per environment
     gens = {}
@@ -465,21 +500,24 @@ def c19_generate(seed, tier):
     order = list(range(n_env))
     pending = order[1:]
     ops.append({"op": "construct", "env": 0, "spec": specs[0],
-                "modes": gens[0][1], "share": share[0]})
+                "modes": gens[0][1], "share": share[0],
+                "shared_generator": shared_gen})
     constructed.append(0)
     for _ in range(n_ops):
         r = rng.random()
         if pending and r < 0.25:
             k = pending.pop(0)
             ops.append({"op": "construct", "env": k, "spec": specs[k],
-                        "modes": gens[k][1], "share": share[k]})
+                        "modes": gens[k][1], "share": share[k],
+                        "shared_generator": shared_gen})
             constructed.append(k)
             continue
         if r < 0.30 and not pending and rng.random() < 0.3:
             # re-construct an environment id (a new object replaces it)
             k = rng.choice(constructed)
             ops.append({"op": "construct", "env": k, "spec": specs[k],
-                        "modes": gens[k][1], "share": share[k]})
+                        "modes": gens[k][1], "share": share[k],
+                        "shared_generator": shared_gen})
             continue
         if r < 0.34:
             ops.append({"op": "bench",
@@ -494,11 +532,19 @@ def c19_generate(seed, tier):
         kind = rng.choice(["step"] * 10 + ["gstep", "gstep", "reset",
                                           "readable", "roundtrip", "mask",
                                           "advert", "advert"])
+        if same_layout and rng.random() < 0.06:
+            # public helpers that rebuild an initial state (they re-install
+            # the class-level layout, so only used between equal layouts)
+            kind = rng.choice(["gen_initial", "gen_random_initial"])
+            ops.append({"op": kind, "env": k,
+                        "np_seed": rng.randint(0, 2 ** 31 - 1)})
+            continue
         ops.append({"op": kind, "env": k, "_fill": True})
     while pending:
         k = pending.pop(0)
         ops.append({"op": "construct", "env": k, "spec": specs[k],
-                    "modes": gens[k][1], "share": share[k]})
+                    "modes": gens[k][1], "share": share[k],
+                    "shared_generator": shared_gen})
         ops.append({"op": "step", "env": k, "_fill": True})
     return ops, family
 
